@@ -53,6 +53,9 @@ func c11Main(r *run.Runner) {
 		N = 3
 	}
 	corpus := gen.Programs()
+	// one worker: the traversal laws are sequential laws; whether concurrent walks disturb each other is C14's question,
+	// and a tree that fails it must not crash this check from the outside
+	r.MaxWorkers = 1
 	r.Sweep("corpus", int64(len(corpus)), func(w *run.Worker, item int64) {
 		pr := gen.Print(corpus[item])
 		c11Source(w, pr.Layout(pr.Uniform(" ")).Source, r.Thorough())
@@ -202,6 +205,52 @@ func c11Source(w *run.Worker, src string, pairs bool) {
 		for _, p := range order {
 			if !check(map[parser.Node]bool{p: true}, fmt.Sprintf("pruning at %s %v: ", astx.TypeName(p), p.Span())) {
 				return
+			}
+		}
+		// a visitor may itself call Walk (on the node it is visiting) before pruning there: the outer walk is not disturbed
+		if len(order) <= 60 {
+			for _, p := range order {
+				if astx.IsNilNode(p) {
+					continue
+				}
+				plain, ok1 := walk(map[parser.Node]bool{p: true})
+				var outer, inner []parser.Node
+				ok2 := w.Try(src, func() {
+					parser.Walk(st, func(n parser.Node) bool {
+						outer = append(outer, n)
+						if n == p {
+							parser.Walk(p, func(m parser.Node) bool { inner = append(inner, m); return !astx.IsNilNode(m) })
+							return false
+						}
+						return !astx.IsNilNode(n)
+					})
+				})
+				if !ok1 || !ok2 {
+					return
+				}
+				same := len(plain) == len(outer)
+				for i := 0; same && i < len(plain); i++ {
+					same = plain[i] == outer[i]
+				}
+				if !same {
+					w.Fail("walk:reentrant:"+astx.TypeName(p), src, fmt.Sprintf("the visitor walks the subtree of %s %v itself and prunes there: the outer walk visits %d nodes, %d when it only prunes", astx.TypeName(p), p.Span(), len(outer), len(plain)), nil)
+					return
+				}
+				sub, ok3 := []parser.Node(nil), true
+				ok3 = w.Try(src, func() {
+					parser.Walk(p, func(m parser.Node) bool { sub = append(sub, m); return !astx.IsNilNode(m) })
+				})
+				if !ok3 {
+					return
+				}
+				same = len(sub) == len(inner)
+				for i := 0; same && i < len(sub); i++ {
+					same = sub[i] == inner[i]
+				}
+				if !same {
+					w.Fail("walk:reentrant-inner:"+astx.TypeName(p), src, fmt.Sprintf("Walk of the subtree of %s %v from inside a visitor visits %d nodes, %d when called on its own", astx.TypeName(p), p.Span(), len(inner), len(sub)), nil)
+					return
+				}
 			}
 		}
 		if pairs && len(order) <= 25 {
